@@ -6,10 +6,12 @@ CONSTANTS
   MaxSched = 2
   OutBatch = 2
   MatchRel <- MCMatch
-  RFix = {"ready_unknown", "unsuback_one", "unsub_notifs", "resume_submap"}
+  RFix = {"ready_unknown", "unsuback_one", "unsub_notifs", "resume_submap", "group_bufferfull", "group_per_filter", "unsub_own_group", "unsub_shared_waiter", "group_skip_unread", "resume_rejoin"}
   CIDs = {"c1", "c2"}
   Topics <- MCTopics
   Filters <- MCFilters
+  SubFilters <- MCFilters
+  Strategy = "RoundRobin"
   NetCid <- MCNetCid
   NetClean <- MCAllClean
   NetWill <- MCNoWill
